@@ -341,8 +341,12 @@ cdef class CellIndexingNNPS(NNPS):
         cdef double* xmax = self.xmax.data
         cdef double* xmin = self.xmin.data
 
-        self.J = <u_int> (1 + log2(ceil((xmax[0] - xmin[0])/self.cell_size)))
-        self.K = <u_int> (1 + log2(ceil((xmax[1] - xmin[1])/self.cell_size)))
+        # An axis of zero extent (collinear/coplanar particles) has one cell;
+        # log2(0) is -inf and its cast to unsigned is undefined.
+        self.J = <u_int> (1 + log2(fmax(
+            1.0, ceil((xmax[0] - xmin[0])/self.cell_size))))
+        self.K = <u_int> (1 + log2(fmax(
+            1.0, ceil((xmax[1] - xmin[1])/self.cell_size))))
 
         for i in range(self.narrays):
             free(self.keys[i])
@@ -362,7 +366,8 @@ cdef class CellIndexingNNPS(NNPS):
         cdef NNPSParticleArrayWrapper pa_wrapper = self.pa_wrappers[pa_index]
         cdef int num_particles = pa_wrapper.get_number_of_particles()
 
-        self.I[pa_index] = <u_int> (1 + log2(pa_wrapper.get_number_of_particles()))
+        # Empty arrays need no bits for the particle index (avoid log2(0)).
+        self.I[pa_index] = <u_int> (1 + log2(fmax(1.0, num_particles)))
 
         cdef u_int* current_keys = self.keys[pa_index]
         cdef key_to_idx_t* current_indices = self.key_indices[pa_index]
